@@ -433,3 +433,92 @@ lemma(
     note='bounded: element trees of nesting depth 2 with lists of length 5 / 2 / 0 (recursion over arbitrary trees is outside the SMT encoding); '
          'the unbounded part is the pair of contracts parse_next / _list_from_bytes (offsets, depth counter, consumed slice)',
 )
+
+
+# ---------------------------------------------------------------------------
+# core.AdvertisingData (Core Vol 3 Part C 11: length, type, data; length covers type + data)
+# ---------------------------------------------------------------------------
+from pyvc.contracts import ConcList, TupleOf  # noqa: E402
+
+AD_M = 'bumble.core:AdvertisingData'
+model(AD_M, fields={'ad_structures': ListOf(TupleOf(Int, Bytes))})
+
+contract(
+    'bumble.core:AdvertisingData.append',
+    prop='C18',
+    params=dict(self=Inst(AD_M), data=Bytes),
+    # arbitrary bytes (truncated structures, zero length bytes, a length byte that points past the end): no exception
+    # escapes, the loop terminates, what was there stays there
+    ensures=lambda self, old, data: [
+        len(self.ad_structures) >= len(old.self.ad_structures),
+        self.ad_structures[: len(old.self.ad_structures)] == old.self.ad_structures,
+        implies(len(data) < 2, self.ad_structures == old.self.ad_structures),
+    ],
+    ensures_names=['only-appends', 'old-structures-kept', 'nothing-from-less-than-two-bytes'],
+    modifies=['self.ad_structures'],
+    invariants={0: lambda self, old, offset, data: [0 <= offset, len(self.ad_structures) >= len(old.self.ad_structures),
+                                                    self.ad_structures[: len(old.self.ad_structures)] == old.self.ad_structures,
+                                                    implies(len(data) < 2, self.ad_structures == old.self.ad_structures)]},
+    decreases={0: lambda offset, data: len(data) - offset},
+)
+
+
+def lemma_ad_fields(structs):
+    ad = core.AdvertisingData(structs)
+    b = bytes(ad)
+    ad2 = core.AdvertisingData.from_bytes(b)
+    assert ad2.ad_structures == ad.ad_structures
+    assert bytes(ad2) == b
+
+
+for _n in range(0, 4):
+    lemma(f'advertising_data_roundtrip_{_n}_bounded', lemma_ad_fields, prop='C18',
+          params=dict(structs=ConcList(TupleOf(IntRange(0, 255), Bytes), _n)),
+          requires=lambda structs: [len(x[1]) <= 254 for x in structs],
+          inline=['AdvertisingData.*'],
+          bounded=f'{_n} structures',
+          note=f'bounded: {_n} AD structures (every type code and data length 0..254 symbolic); the step lemma advertising_data_structure_step '
+               'and the contract of append cover one structure at any offset / arbitrary bytes')
+
+
+# ---------------------------------------------------------------------------
+# hci.Address: 6 little-endian bytes + address type
+# ---------------------------------------------------------------------------
+from bumble import hci  # noqa: E402
+
+AT = hci.AddressType
+ADDRESS_TYPES = (AT.PUBLIC_DEVICE, AT.RANDOM_DEVICE, AT.PUBLIC_IDENTITY, AT.RANDOM_IDENTITY, AT.UNABLE_TO_RESOLVE, AT.ANONYMOUS)
+
+
+def lemma_address_fields(ab, address_type, pre, post):
+    a = hci.Address(ab, address_type)
+    assert bytes(a) == ab and a.address_type == address_type
+    # object -> bytes -> object at any offset of a larger buffer, type given by the caller ...
+    data = pre + bytes(a) + post
+    end, b = hci.Address.parse_address_with_type(data, len(pre), address_type)
+    assert end == len(pre) + 6
+    assert b == a and bytes(b) == ab and b.address_type == address_type and b.is_public == a.is_public
+    # ... or carried in the byte before the address
+    data2 = pre + bytes([address_type]) + bytes(a) + post
+    end2, c = hci.Address.parse_address_preceded_by_type(data2, len(pre) + 1)
+    assert end2 == len(pre) + 7
+    assert c == a and bytes(c) == ab and c.address_type == address_type
+    # the type-less forms fix the type
+    end3, d = hci.Address.parse_address(data, len(pre))
+    end4, r = hci.Address.parse_random_address(data, len(pre))
+    assert bytes(d) == ab and d.address_type == AT.PUBLIC_DEVICE and bytes(r) == ab and r.address_type == AT.RANDOM_DEVICE
+    assert a.clone() == a and bytes(a.clone()) == ab
+
+
+lemma('address_fields_roundtrip', lemma_address_fields, prop='C18',
+      params=dict(ab=BytesN(6), address_type=OneOf(*ADDRESS_TYPES), pre=Bytes, post=Bytes), inline=['Address.*'])
+
+
+def lemma_address_bytes(data, offset):
+    # bytes -> object -> bytes for every 6-byte window; the object keeps exactly those bytes
+    end, a = hci.Address.parse_address(data, offset)
+    assert end == offset + 6 and bytes(a) == data[offset : offset + 6] and len(bytes(a)) == 6
+
+
+lemma('address_bytes_roundtrip', lemma_address_bytes, prop='C18', params=dict(data=Bytes, offset=Int),
+      requires=lambda data, offset: [0 <= offset, offset + 6 <= len(data)], inline=['Address.*'])
